@@ -80,29 +80,40 @@ def r61(ctx, rep):
         if init is None:
             raise AnalysisError('anchor vanished: %s.__init__' % vfq)
         c11._ctor_presorted(ctx, sub, ti, init)
-        # squared up before sorting (join / lookupjoin pad short rows; antijoin does not)
+        # squared up before sorting (join / lookupjoin pad short rows; antijoin does not): under every valuation of the
+        # constructor's tests, what is stored for each side is stack(<side>, missing=missing), possibly inside sort(...)
         if ci.name in ('JoinView', 'LookupJoinView'):
+            from ..dtable import table as dtable, Unsupported
+            try:
+                atoms, rows = dtable(init.node.body, opaque=True)
+            except Unsupported as e:
+                rep.undecided('R6.1', init, 'squared up', str(e), init.node)
+                rows = []
             for side in ('left', 'right'):
-                stores = [n for n in own_nodes(init.node) if isinstance(n, ast.Assign) and
-                          any(norm(t) == 'self.' + side for t in n.targets)]
-                stores.sort(key=lambda n: n.lineno)
-                first = norm(stores[0].value) if stores else ''
-                if first.startswith('stack(%s' % side):
-                    rep.held('R6.1', init, 'self.%s = %s' % (side, first[:50]), 'rows squared up to the header length', stores[0])
-                else:
-                    rep.violated('R6.1', init, 'self.%s = %s' % (side, first[:50]),
-                                 'the %s table is not squared up with stack() before the merge: short rows raise or are '
-                                 'compared with a shifted key' % side, stores[0] if stores else init.node)
-        if ci.name in ('JoinView', 'LookupJoinView'):
-            for c in [n for n in own_nodes(init.node) if isinstance(n, ast.Call) and norm(n.func) == 'sort']:
-                a0 = norm(c.args[0]) if c.args else ''
-                if a0 in ('self.left', 'self.right') or a0.startswith('stack('):
-                    rep.held('R6.1', init, 'sort(%s, ...)' % a0[:30], 'the squared-up table is what gets sorted', c)
-                else:
-                    rep.violated('R6.1', init, 'sort(%s, ...)' % a0[:30],
-                                 'the raw input `%s` is sorted and only squared up afterwards: a row too short to hold the '
-                                 'key sorts under None and is then padded with `missing`, so the merge receives an '
-                                 'out-of-order stream' % a0, c)
+                verdict = {}
+                for val, oc in rows:
+                    if oc.kind == 'raise':
+                        continue
+                    attrs = c11._final_attrs(oc.effects)
+                    e = attrs.get('self.' + side)
+                    if e is None:
+                        verdict[str(val)] = ('violated', 'self.%s is not stored' % side, init.node)
+                        continue
+                    inner = c11._strip_sort(ctx, init, e)
+                    t = norm(inner)
+                    if isinstance(inner, ast.Call) and norm(inner.func) == 'stack' and inner.args and norm(inner.args[0]) == side:
+                        verdict[str(val)] = ('held', t, init.node)
+                    else:
+                        verdict[str(val)] = ('violated', t, init.node)
+                bad = [(k, v) for k, v in verdict.items() if v[0] == 'violated']
+                if bad:
+                    rep.violated('R6.1', init, 'self.%s squared up' % side,
+                                 'the %s table reaches the merge as `%s` when %s: it is not squared up with stack() (or only '
+                                 'after it was sorted), so short rows raise, or sort under None and are padded afterwards: the '
+                                 'merge receives an out-of-order stream' % (side, bad[0][1][1][:60], bad[0][0]), init.node)
+                elif verdict:
+                    rep.held('R6.1', init, 'self.%s squared up' % side,
+                             'stack(%s, ...) under every valuation, sorted afterwards' % side, init.node)
     for o in sub.obligations:
         rep.add('R6.1', (o.module, o.qualname), o.construct, o.status, o.message, o.lineno, o.detail)
 
